@@ -14,12 +14,14 @@ Act(e) == CASE e.op = "new"        -> New(e.x, e.cls)
             [] e.op = "copynsga"   -> CopyNsga(e.i)
             [] e.op = "tofrom"     -> ToFrom(e.i)
             [] e.op = "tofromjson" -> ToFromJson(e.i)
+            [] e.op = "copyswarm"  -> CopySwarm(e.i)
+            [] e.op = "initpbest"  -> InitPbest(e.i)
             [] e.op = "sync"       -> Sync(e.i, e.j)
             [] e.op = "setvec"     -> SetVec(e.i, e.x)
             [] e.op = "setcost"    -> SetCost(e.i, e.x)
             [] e.op = "setsigned"  -> SetSigned(e.i, e.x)
             [] e.op = "setfeat"    -> SetFeat(e.i, e.x)
-Known == {"new", "copy", "copynsga", "tofrom", "tofromjson", "sync", "setvec", "setcost", "setsigned", "setfeat"}
+Known == {"new", "copy", "copynsga", "tofrom", "tofromjson", "copyswarm", "initpbest", "sync", "setvec", "setcost", "setsigned", "setfeat"}
 OpEv(e) ==
     /\ Clause("no-exception", e.exc = "")
     /\ Clause("known-operation", e.op \in Known)
@@ -33,6 +35,8 @@ OpEv(e) ==
     /\ Clause("costs-aliasing", \A k \in DOMAIN objs' : e.objs[k].costs = objs'[k].costs)
     /\ Clause("signed-costs-aliasing", \A k \in DOMAIN objs' : e.objs[k].signed = objs'[k].signed)
     /\ Clause("features-aliasing", \A k \in DOMAIN objs' : e.objs[k].feat = objs'[k].feat)
+    /\ Clause("personal-best-aliasing", \A k \in DOMAIN objs' : e.objs[k].best = (IF objs'[k].feat \in DOMAIN best' THEN best'[objs'[k].feat] ELSE 0))
+    /\ Clause("personal-best-key", \A k \in DOMAIN objs' : e.objs[k].haskey = (objs'[k].feat \in DOMAIN best'))
     /\ Clause("list-contents", e.lists = lists')
 TInit == tid \in 1..Len(Traces) /\ l = 1 /\ Init
 TNext == /\ l <= Len(Traces[tid])
